@@ -522,7 +522,7 @@ func randomHist(rng *rand.Rand, n, ln int) []Op {
 			h = append(h, o)
 		case x < 18:
 			lim := []int{0, 1, 2, 3, 1 + rng.Intn(n+1), 20000}[rng.Intn(6)]
-			h = append(h, Op{Op: "enum", After: rng.Intn(2*n + 3), Limit: lim, Form: rng.Intn(3), Wait: rng.Intn(3)})
+			h = append(h, Op{Op: "enum", After: rng.Intn(2*n + 3), Limit: lim, Form: rng.Intn(6), Wait: rng.Intn(3)})
 		default:
 			h = append(h, Op{Op: "remove", Bs: set()})
 		}
